@@ -51,10 +51,26 @@ type c01Entry struct {
 	copies bool
 }
 
+// usedMessage returns a destination that already holds a decoded message with attributes (receivers are reused in
+// practice: the client decodes every datagram into one Message).
+func usedMessage(r *gen.Rand) *stun.Message {
+	if r.Bool() {
+		return new(stun.Message)
+	}
+	m := new(stun.Message)
+	prev := stun.MustBuild(stun.BindingSuccess, stun.TransactionID, stun.NewSoftware("previous content"),
+		stun.NewUsername("previous-user"), stun.RawAttribute{Type: 0x7f7f, Value: r.Bytes(1 + r.Intn(40))})
+	if err := stun.Decode(prev.Raw, m); err != nil {
+		fatalHarness("usedMessage: " + err.Error())
+	}
+
+	return m
+}
+
 func c01Entries() []c01Entry {
 	return []c01Entry{
-		{"Decode", func(in []byte, _ *gen.Rand) (*stun.Message, []byte, error) {
-			m := new(stun.Message)
+		{"Decode", func(in []byte, r *gen.Rand) (*stun.Message, []byte, error) {
+			m := usedMessage(r)
 			err := stun.Decode(in, m)
 
 			return m, in, err
@@ -65,8 +81,8 @@ func c01Entries() []c01Entry {
 
 			return m, in, err
 		}, false},
-		{"Write", func(in []byte, _ *gen.Rand) (*stun.Message, []byte, error) {
-			m := new(stun.Message)
+		{"Write", func(in []byte, r *gen.Rand) (*stun.Message, []byte, error) {
+			m := usedMessage(r)
 			n, err := m.Write(in)
 			if n != len(in) {
 				return m, in, fmt.Errorf("Write returned n=%d for %d bytes: %w", n, len(in), errHarnessAssert)
@@ -74,21 +90,21 @@ func c01Entries() []c01Entry {
 
 			return m, in, err
 		}, true},
-		{"UnmarshalBinary", func(in []byte, _ *gen.Rand) (*stun.Message, []byte, error) {
-			m := new(stun.Message)
+		{"UnmarshalBinary", func(in []byte, r *gen.Rand) (*stun.Message, []byte, error) {
+			m := usedMessage(r)
 			err := m.UnmarshalBinary(in)
 
 			return m, in, err
 		}, true},
-		{"GobDecode", func(in []byte, _ *gen.Rand) (*stun.Message, []byte, error) {
-			m := new(stun.Message)
+		{"GobDecode", func(in []byte, r *gen.Rand) (*stun.Message, []byte, error) {
+			m := usedMessage(r)
 			err := m.GobDecode(in)
 
 			return m, in, err
 		}, true},
-		{"CloneTo", func(in []byte, _ *gen.Rand) (*stun.Message, []byte, error) {
+		{"CloneTo", func(in []byte, r *gen.Rand) (*stun.Message, []byte, error) {
 			src := &stun.Message{Raw: in}
-			dst := new(stun.Message)
+			dst := usedMessage(r)
 			err := src.CloneTo(dst)
 
 			return dst, in, err
@@ -199,7 +215,7 @@ func c01(c *core.Ctx) {
 					continue
 				}
 				alloc := int64(ms1.TotalAlloc - ms0.TotalAlloc)
-				bound := 64*int64(len(in)) + 4096
+				bound := 64*int64(len(in)) + 4096 + 2048 // + the reused destination built inside the measured window
 				for rep := 0; alloc > bound && rep < 4; rep++ {
 					// TotalAlloc is process-wide: the runtime's own sporadic allocations land in
 					// the window now and then. An allocation caused by the input repeats; noise
